@@ -92,3 +92,20 @@ Definition bad_probes (cat:catalogue) (tax:Q -> pv -> res pv) (l:list probe) : l
   go 0%nat l.
 Definition probes_ok (cat:catalogue) (tax:Q -> pv -> res pv) (l:list probe) : bool :=
   forallb (fun p => (probe_code cat tax p =? 0)%nat) l.
+
+(* C09 helpers: what a line does when only the gate input is supplied *)
+Definition gate_probe (cat:catalogue) (tax:Q -> pv -> res pv) (fname lname gate:string) : nat :=
+  (* 0: the gate is the first thing consulted and answering yes gives "not implemented" (or a crash);
+     1: the gate is the first thing consulted but a yes still yields a value / blocks elsewhere;
+     2: something else is consulted first (path dependent);  3: no such line *)
+  match eval_line cat tax [] [] [fname] fname None lname with
+  | None => 3%nat
+  | Some (_, RNeedI n) =>
+      if String.eqb n gate then
+        match eval_line cat tax [] [(gate, PBool true)] [fname] fname None lname with
+        | Some (_, RUnimpl) | Some (_, RCrash _) => 0%nat
+        | _ => 1%nat
+        end
+      else 2%nat
+  | Some _ => 2%nat
+  end.
